@@ -31,7 +31,7 @@ type concProg struct {
 	ConsFirst bool
 }
 
-func valueOf(id, seq int) int { return (id+1)*1000 + seq }
+func valueOf(id, seq int) int { return (id+1)*100000 + seq }
 
 func genConc(g *sim.Stream, tier string) *concProg {
 	p := &concProg{}
@@ -90,7 +90,7 @@ func genConc(g *sim.Stream, tier string) *concProg {
 		w("func producer%d(id, n) {", form)
 		w("  pstart(id, n)")
 		w("  for i := 0; i < n; i++ {")
-		w("    v := (id+1)*1000 + i")
+		w("    v := (id+1)*100000 + i")
 		w("    sinv(id, i)")
 		if form == 0 {
 			w("    c <- v")
@@ -224,7 +224,19 @@ func genConc(g *sim.Stream, tier string) *concProg {
 		w("if r0 != \"caught:boom 77\" { error(\"first wait gave \" + string(r0)) }")
 	}
 	w("re := try(func() { return te.wait() }, func(e) { return \"caught:\" + string(e) })")
-	w("[ra, re]")
+	// a spawned function that RETURNS an error value (nothing is raised): wait()
+	// hands the value over like any other result
+	w("func soft(k) { return try(func() { error(\"soft %%d\", k) }, func(e) { return e }) }")
+	switch g.Intn(3) {
+	case 0:
+		w("tv := spawn(soft, 4)")
+	case 1:
+		w("tv := soft.spawn(4)")
+	default:
+		w("tv := spawn(func(k) { return soft(k) }, 4)")
+	}
+	w("rv := try(func() { return tv.wait() }, func(e) { return \"raised:\" + string(e) })")
+	w("[ra, re, type(rv), string(rv)]")
 	p.Src = b.String()
 	return p
 }
@@ -561,8 +573,8 @@ func runC10(rc *fw.RunCtx) {
 	for rid, vs := range perRecv {
 		last := map[int]int{}
 		for _, v := range vs {
-			id := v/1000 - 1
-			seq := v % 1000
+			id := v/100000 - 1
+			seq := v % 100000
 			if prev, ok := last[id]; ok && seq < prev {
 				rc.Violate("order/per-sender", "receiver %d saw sender %d's message %d after %d", rid, id, seq, prev)
 				return
@@ -605,7 +617,7 @@ func runC10(rc *fw.RunCtx) {
 			}
 		}
 	}
-	want := `[[5, 6], "caught:boom 77"]`
+	want := `[[5, 6], "caught:boom 77", "error", "soft 4"]`
 	if out.Result == nil || safeInspect(out.Result) != want {
 		rc.Violate("wait/result-or-error", "final value %s, expected %s", out.String(), want)
 		return
